@@ -20,7 +20,7 @@ RULE = (
     "of declaration lines equals one per member with the title/type of the nearest configured class; the "
     "multiset of relation lines between two member titles equals one per internal link as `title(v1) "
     "<v1side>--<v2side> title(v2)` with the options of the link's nearest configured class; every other relation "
-    "line corresponds to an existing link of a member; empty universe => None.  Every case renders twice: after the first rendering the vertices' title attributes are changed, one member leaves (from the vertex side) and one joins, and the second rendering - with the same option-table object or with another table in which nearer ancestors are (un)configured, optionally after a rendering that failed - must show the new state.  Attribute lines of a declaration (format-agnostic `name = value`): every instance attribute selected by the nearest class's show_attrs is shown (the value of `i` is compared), nothing is shown that show_attrs does not select; also rendered with the library's own default option table (worlds with directed / undirected links only).  A few worlds are scaled up: a member with 70 / 300 links (leaves members or not) and universes whose first 258 / 300 members are isolated fillers.  Title formats may name a class-level constant of the vertex class; declarations may show an attribute that refers to another vertex (a ring of peers); Universe(vertices=) may be given a vertex twice; universe-vertices may contain other vertices.  Non-trivial = >= 2 internal links "
+    "line corresponds to an existing link of a member; empty universe => None.  Every case renders twice: after the first rendering the vertices' title attributes are changed, one member leaves (from the vertex side) and one joins, and the second rendering - with the same option-table object or with another table in which nearer ancestors are (un)configured, optionally after a rendering that failed - must show the new state.  Title formats may contain a replacement field nested in a format spec (v{i:0{pad}d}); arrow ends may contain braces (crow's-foot ends).  Attribute lines of a declaration (format-agnostic `name = value`): every instance attribute selected by the nearest class's show_attrs is shown (the value of `i` is compared), nothing is shown that show_attrs does not select; also rendered with the library's own default option table (worlds with directed / undirected links only).  A few worlds are scaled up: a member with 70 / 300 links (leaves members or not) and universes whose first 258 / 300 members are isolated fillers.  Title formats may name a class-level constant of the vertex class; declarations may show an attribute that refers to another vertex (a ring of peers); Universe(vertices=) may be given a vertex twice; universe-vertices may contain other vertices.  Non-trivial = >= 2 internal links "
     "of different classes, or an internal self-loop, or a class resolved through the MRO; distinct = distinct case value."
 )
 ASSUMPTIONS = [
